@@ -99,7 +99,10 @@ _budget = {"n": 0, "limit": 0, "on": False, "registered": False}
 
 
 def _on_line(code, line):
-    if "jaqalpaq" not in code.co_filename and "/sly/" not in code.co_filename:
+    fn = code.co_filename
+    if ("jaqalpaq" not in fn and "/sly/" not in fn) or fn.endswith("emulator/unitary.py"):
+        # not code under test, or the emulator's numeric kernel (bounded for-range loops only,
+        # by far the hottest code): switch the event off for this location for good
         return sys.monitoring.DISABLE
     _budget["n"] += 1
     if _budget["on"] and _budget["n"] > _budget["limit"]:
@@ -122,7 +125,6 @@ class step_budget:
         _budget["n"] = 0
         _budget["limit"] = self.limit
         _budget["on"] = True
-        mon.restart_events()
         mon.set_events(_TOOL, mon.events.LINE)
         return self
 
